@@ -84,7 +84,8 @@ def diagnose(ctx, module, diag_cfg, lines, timeout=600):
     r = _tlc_walk(module, diag_cfg, lines, module + "-diag", timeout, ctx.work)
     out = {}
     for m in re.finditer(r'<<\s*"DIAG",\s*(-?\d+),\s*(<<.*?>>)\s*>>\s*(?=\n[^ \n]|\Z)', r.out, re.S):
-        out[int(m.group(1))] = " ".join(m.group(2).split())
+        txt = " ".join(m.group(2).split())
+        out[int(m.group(1))] = re.sub(r"\s+>>", ">>", re.sub(r"<<\s+", "<<", txt))
     return out
 
 
